@@ -225,7 +225,8 @@ async def answer(bundle, s, label, probes, sub):
                 t[k] = sorted(t[k], key=lambda x: x.get("name") or "")
     out.append({"introspection_types": types, "errors": r.get("errors")})
     anomalies = [a for a in anomalies if a[0] == "registration-of-another-schema-name-used"]
-    return json.loads(X.jdump(out)), anomalies
+    # the engine's own schema name differs between the alone run and the co-resident run: not part of the comparison
+    return strip_own_name(json.loads(X.jdump(out)), bundle.name), anomalies
 
 
 def label_coercer(label):
@@ -236,6 +237,15 @@ def label_coercer(label):
         error["by"] = label
         return error
     return annotating_error_coercer
+
+
+def strip_own_name(x, name):
+    """Replace the engine's own schema name inside error MESSAGES only."""
+    if isinstance(x, dict):
+        return {k: (v.replace(name, "<own-schema-name>") if k == "message" and isinstance(v, str) else strip_own_name(v, name)) for k, v in x.items()}
+    if isinstance(x, list):
+        return [strip_own_name(v, name) for v in x]
+    return x
 
 
 def make_bundle(label, m):
@@ -307,6 +317,9 @@ async def run_alone(seed, index, variant):
     raise RuntimeError("alone subprocess gave no answer: %s" % err.decode("utf-8", "replace")[-1500:])
 
 
+_DEFAULT_USED = []
+
+
 async def short_lived_engine(st):
     """An engine built through create_engine for yet another schema name comes and goes (garbage collection included)."""
     from tartiflette import create_engine
@@ -352,7 +365,10 @@ async def run_case(ctx, rng, index):
                 st.inc("bundles_constructed_under_a_foreign_name")
         mode = rng2.choice(["sequential", "sequential", "concurrent+failing"])
         default_v = rng2.choice(range(k)) if rng2.random() < 0.3 else None
+        if default_v is not None and _DEFAULT_USED:
+            default_v = None        # a schema name is used once per process (ASSUMPTIONS): "default" too
         if default_v is not None:
+            _DEFAULT_USED.append(True)
             # one bundle lives under the schema name every API call uses when none is given
             boot.forget_schema("default")
             bs[default_v].name = "default"
